@@ -83,6 +83,16 @@ pub fn exec(c: &OCase, repair: bool) -> OResult {
             let ratio = get_diff_ratio(&ops, c.oe - c.os, c.ne - c.ns);
             (ops, ratio)
         }
+        "identify" => {
+            // the documented IdentifyDistinct recipe: integer ids for the items, lookups and ranges
+            // that keep the caller's indices
+            let old = rec::items(&c.old);
+            let new = rec::items(&c.new);
+            let h = similar::algorithms::IdentifyDistinct::<u32>::new(&old[..], c.os..c.oe, &new[..], c.ns..c.ne);
+            let ops = capture_diff_deadline(c.alg, h.old_lookup(), h.old_range(), h.new_lookup(), h.new_range(), deadline);
+            let ratio = get_diff_ratio(&ops, c.oe - c.os, c.ne - c.ns);
+            (ops, ratio)
+        }
         "hetero" => {
             // old and new of different element types (equal values hash differently across them)
             let old: Vec<rec::OldT> = c.old.iter().map(|v| rec::OldT(*v)).collect();
@@ -281,6 +291,7 @@ pub fn from_json(v: &Value) -> OCase {
         "slices_consthash" => "slices_consthash",
         "hetero" => "hetero",
         "alias" => "alias",
+        "identify" => "identify",
         _ => "textdiff",
     };
     OCase {
@@ -534,6 +545,11 @@ pub fn drive_ops(a: &Args, out: &mut Out) {
                 let mut ht = if i % 2 == 0 { whole.clone() } else { sub.clone() };
                 ht.entry = "hetero";
                 emit_with_fuels(&ht, out, &mut rng, 0);
+            }
+            if i % 3 == 1 {
+                let mut id = sub.clone();
+                id.entry = "identify";
+                emit_with_fuels(&id, out, &mut rng, 0);
             }
             if i % 3 == 0 {
                 let mut buf = x.clone();
